@@ -194,8 +194,16 @@ fn verif_sweep_c19_one_defect_each() {
         if !base.ends_with("/v") {
             continue;
         }
-        for extra in &["/x", "/x/y", "/%2f/x"] {
+        for extra in &["/x", "/x/y", "/%2f/x", "/"] {
             let text = format!("{}{}", base, extra);
+            assert!(matches!(rejected(&text), Error::ExtraUrlPathSegments { .. }), "{}", text);
+        }
+        // an empty first segment followed by more segments is still more than one segment ("amqp://h//v", "amqp://h//", "amqp://h///v")
+        let stem = &base[..base.len() - 2];
+        for path in &["//v", "//", "///v", "//v/", "//%2f"] {
+            let text = format!("{}{}", stem, path);
+            assert!(matches!(rejected(&text), Error::ExtraUrlPathSegments { .. }), "{}", text);
+            let text = format!("{}{}?heartbeat=5", stem, path);
             assert!(matches!(rejected(&text), Error::ExtraUrlPathSegments { .. }), "{}", text);
         }
         for (param, ok_value) in &[("frame_max", "4096"), ("heartbeats", "1"), ("Heartbeat", "1"), ("timeout", "5"), ("locale", "en_US"), ("verify", "verify_none"), ("x", "")] {
